@@ -652,6 +652,10 @@ class Translator:
                     raise Unsupported("decl " + d["kind"])
                 init = [c for c in d.get("inner", []) if "kind" in c and c["kind"] not in ("FullComment",)]
                 t = ctype(d["type"])
+                if t[0] == "other" and not init and re.match(r"(struct |union )?[A-Za-z_][A-Za-z0-9_]*$", t[1].strip()):
+                    # uninitialised local struct: its fields are read by access path
+                    # ("v.f"); a field read before any write or call yields an arbitrary input
+                    continue
                 if t[0] not in ("int", "ptr", "float"):
                     raise Unsupported("local %s of type %s" % (d["name"], t))
                 if init:
